@@ -386,6 +386,7 @@ static int exec_op_inner(jval *op, int incb)
 	if (!strcmp(a, "drain")) { char b[64]; fed[e] = 0; while (read(pipes[e][0], b, sizeof b) > 0) ; return 0; }
 	if (!strcmp(a, "raise")) { raise(SIGUSR1); return 0; }
 	if (!strcmp(a, "adv")) { vt_now_ns += j_int(op, "t", 0) * tick_ns; return 0; }
+	if (!strcmp(a, "upd")) return event_base_update_cache_time(base);
 	if (!strcmp(a, "script")) { script[e] = j_get(op, "s"); return 0; }
 	if (!strcmp(a, "wnew")) { wadd(e, !strcmp(j_str(op, "k", "prep"), "check"), j_str(op, "s", "none")); return 0; }
 	if (!strcmp(a, "wfree")) { int i = wfind(e); if (i >= 0) wremove(i); return 0; }
@@ -496,7 +497,15 @@ static void run_scenario(jval *sc)
 		if (strcmp(methods[i], backend)) event_config_avoid_method(ec, methods[i]);
 	if (j_int(cfg, "changelist", 0)) event_config_set_flag(ec, EVENT_BASE_FLAG_EPOLL_USE_CHANGELIST);
 	if (j_int(cfg, "signalfd", 0)) event_config_set_flag(ec, EVENT_BASE_FLAG_USE_SIGNALFD);
-	if (maxcb > 0) event_config_set_max_dispatch_interval(ec, NULL, maxcb, limitprio);
+	{
+		long long mi = j_int(cfg, "maxintv", -1);
+		if (mi >= 0) {
+			struct timeval itv;
+			long long ns = mi * tick_ns;
+			itv.tv_sec = ns / 1000000000LL; itv.tv_usec = (ns % 1000000000LL) / 1000;
+			event_config_set_max_dispatch_interval(ec, &itv, maxcb > 0 ? maxcb : -1, limitprio);
+		} else if (maxcb > 0) event_config_set_max_dispatch_interval(ec, NULL, maxcb, limitprio);
+	}
 	lockrec_api_enter("base_new");
 	base = event_base_new_with_config(ec);
 	lockrec_api_return("base_new");
